@@ -65,6 +65,19 @@ func (x *Exec) call(st *State, e *ast.CallExpr) []Val {
 			return []Val{x.quantifier(st, e, fn.Name() == "forall")}
 		case "all", "elems":
 			x.fail("%s(...) is only meaningful in a modifies clause", fn.Name())
+		case "fresh":
+			// fresh(p): p was allocated by this call (not allocated in the pre-state)
+			v := x.expr(st, e.Args[0])
+			pre := x.old
+			if pre == nil {
+				x.fail("fresh(...) outside a postcondition")
+			}
+			al := x.heapGet(pre, "alloc", SArr(SInt, SBool))
+			return []Val{{Typ: types.Typ[types.Bool], T: x.c.And(x.c.Neq(v.T, x.c.Int(0)), x.c.Not(x.c.Select(al, v.T)))}}
+		case "sameArray":
+			a := x.expr(st, e.Args[0])
+			b := x.expr(st, e.Args[1])
+			return []Val{{Typ: types.Typ[types.Bool], T: x.c.Eq(a.Arr, b.Arr)}}
 		}
 		if strings.HasPrefix(fn.Name(), "ite") && sig.Params().Len() == 3 && isBool(sig.Params().At(0).Type()) {
 			cnd := x.expr(st, e.Args[0])
@@ -534,7 +547,7 @@ func (x *Exec) callContract(st *State, con *Contract, recv *Val, args []Val, e *
 	for i := 0; i < sig.Results().Len(); i++ {
 		r := sig.Results().At(i)
 		var v Val
-		if isObjType(r.Type()) {
+		if isObjType(r.Type()) || con.freshResult(i, r) {
 			v = Val{Typ: r.Type(), T: x.allocRef(st, "res")}
 		} else {
 			v = x.freshVal(st, fmt.Sprintf("%s_res%d", con.Fn.Name(), i), r.Type())
@@ -1112,4 +1125,33 @@ func (p *Program) modeDependent(con *Contract) string {
 		}
 	}
 	return ""
+}
+
+// freshResult: does some ensures clause have the top-level conjunct fresh(<result i>)?
+func (con *Contract) freshResult(i int, r *types.Var) bool {
+	want := fmt.Sprintf("result%d", i)
+	if r.Name() != "" && r.Name() != "_" {
+		want = r.Name()
+	}
+	for _, en := range con.Ensures {
+		var conj func(e ast.Expr) bool
+		conj = func(e ast.Expr) bool {
+			e = ast.Unparen(e)
+			if b, ok := e.(*ast.BinaryExpr); ok && b.Op == token.LAND {
+				return conj(b.X) || conj(b.Y)
+			}
+			if call, ok := e.(*ast.CallExpr); ok {
+				if id, ok := call.Fun.(*ast.Ident); ok && id.Name == "fresh" && len(call.Args) == 1 {
+					if a, ok := ast.Unparen(call.Args[0]).(*ast.Ident); ok && a.Name == want {
+						return true
+					}
+				}
+			}
+			return false
+		}
+		if conj(en.Expr) {
+			return true
+		}
+	}
+	return false
 }
